@@ -506,12 +506,24 @@ def return_to_host_all_pairs(budget: float, replay=None) -> dict:
     return _run_rt_host(budget, _combos(_ALL_PAIRS), _shapes(pick(2, 3)), replay)
 
 
-@task(q=60, t=900, engine="sx", encoded=[pk._validate_return_to, pk._is_localhost, up.urlsplit.__wrapped__],
-      bound="evil host before/after an acceptable host x {http,https}; glue total len==%d (each <=2), %s" % (_G, pick("with a trailing path", "with and without a trailing path")),
-      stubs=["allowed_origins := linear-scan container", "urlsplit := urlsplit.__wrapped__ (lru_cache bypassed)"])
-def return_to_host_confusion_deep(budget: float, replay=None) -> dict:
+def _deep(budget: float, scheme: str, replay) -> dict:  # noqa: ANN001
     shapes = [s for s in _shapes(_G) if sum(s) == _G]
-    return _run_rt_host(budget, _combos(_CONFUSION_PAIRS, tails=pick(("/x",), ("/x", ""))), shapes, replay)
+    combos = [c for c in _combos(_CONFUSION_PAIRS, tails=pick(("/x",), ("/x", ""))) if c["scheme"] == scheme]
+    return _run_rt_host(budget, combos, shapes, replay)
+
+
+_DEEP_BOUND = "evil host before/after an acceptable host, scheme %%s; glue total len==%d (each <=2), %s" % (_G, pick("with a trailing path", "with and without a trailing path"))
+_DEEP_STUBS = ["allowed_origins := linear-scan container", "urlsplit := urlsplit.__wrapped__ (lru_cache bypassed)"]
+
+
+@task(q=60, t=900, engine="sx", encoded=[pk._validate_return_to, pk._is_localhost, up.urlsplit.__wrapped__], bound=_DEEP_BOUND % "http", stubs=_DEEP_STUBS)
+def return_to_host_confusion_deep_http(budget: float, replay=None) -> dict:
+    return _deep(budget, "http", replay)
+
+
+@task(q=60, t=900, engine="sx", encoded=[pk._validate_return_to, pk._is_localhost, up.urlsplit.__wrapped__], bound=_DEEP_BOUND % "https", stubs=_DEEP_STUBS)
+def return_to_host_confusion_deep_https(budget: float, replay=None) -> dict:
+    return _deep(budget, "https", replay)
 
 
 # --- (b) return_to: the port is part of the origin --------------------------------------------
@@ -811,7 +823,7 @@ def _attacker_raw(honest: bytes, mode: int, forged: bytes, n: int) -> bytes:
     return honest + forged[:2]
 
 
-_COOKIE_BOUND = "cookie = honest | ANY byte string of the honest length (%d) | honest truncated to any n | honest + any 1..2 bytes; integer clock in -10..3000 (cookie created at 1000), max_age in -5..1500 (the expiry message renders both in decimal: unbounded ints fork per digit count)" % _HONEST_LEN
+_COOKIE_BOUND = "cookie = honest | ANY byte string of the honest length (%d) | honest truncated to any n | honest + any 1..2 bytes; integer clock in 990..1710 (cookie created at 1000, i.e. age -10..710 s; the live max age is 600), max_age in -1..700 (the expiry message renders both in decimal: unbounded ints fork per digit count)" % _HONEST_LEN
 
 
 def _real_cookie(args: dict, max_age: int):
@@ -877,7 +889,7 @@ def _replay_callback(args: dict) -> str | None:
 def cookie_accepted_iff_untampered_and_fresh(forged: bytes, mode: int, n: int, now: int, max_age: int) -> bool:
     """
     pre: len(forged) == _HONEST_LEN and 0 <= mode <= 3 and 0 <= n <= _HONEST_LEN
-    pre: -10 <= now <= 3000 and -5 <= max_age <= 1500
+    pre: 990 <= now <= 1710 and -1 <= max_age <= 700
     post: _
     """
     honest = _honest_raw()
@@ -961,7 +973,7 @@ _MAXAGE = pk._unpack_oauth_cookie.__defaults__[0]
 def callback_completes_only_with_valid_cookie_and_state(state: str, forged: bytes, mode: int, n: int, now: int) -> bool:
     """
     pre: len(state) <= 3 and len(forged) == _HONEST_LEN and 0 <= mode <= 4 and 0 <= n <= _HONEST_LEN
-    pre: -10 <= now <= 3000
+    pre: 990 <= now <= 1710
     post: _
     """
     honest = _honest_raw()
